@@ -1,6 +1,67 @@
-(* C11 - placeholder until Proofs/SequenceFacts.v lands. *)
-From Coq Require Import List.
-From BB Require Import Base.Names.
-Theorem C11_placeholder : forall l, NoDup (uniquify l).
-Proof. exact uniquify_NoDup. Qed.
-Print Assumptions C11_placeholder.
+(* C11 - declared filter compensation = ripasso inverse filter on the forged waveform.
+   Only statements; every proof is `exact <lemma>` into Proofs/DelayFacts.v.  The numerics of the inverse
+   filter itself are C12/C13 (tie T); here the plan WFilt kind order f_cut SR w stands for
+   ripasso.applyInverseRCFilter(w, SR, kind, f_cut, order, DCgain=1) and is materialised by the real function
+   in the correspondence check. *)
+From Coq Require Import String List ZArith QArith Bool.
+From BB Require Import Base.Names Base.Num Base.PyList Model.Types Model.Blueprint Model.Forge Model.Element
+  Model.PyVal Model.Sequence Model.Output Proofs.DelayFacts.
+Import ListNotations.
+Open Scope Q_scope.
+
+(* invalid specifications are rejected when they are set, and leave the settings unchanged *)
+Theorem C11_validation : forall s c kind order fc tau,
+  (negb (str_eqb kind (S_ "HP") || str_eqb kind (S_ "LP")) = true -> seq_set_filter s c kind order fc tau = (s, Some EValue)) /\
+  (order = None -> snd (seq_set_filter s c kind order fc tau) <> None /\ fst (seq_set_filter s c kind order fc tau) = s) /\
+  (fc <> VNone -> tau <> VNone -> snd (seq_set_filter s c kind order fc tau) <> None /\ fst (seq_set_filter s c kind order fc tau) = s).
+Proof. exact filter_validation. Qed.
+
+(* an accepted declaration is stored verbatim under the channel's key and found again by the forger *)
+Theorem C11_declared : forall s c kind o fc tau s',
+  seq_set_filter s c kind (Some o) fc tau = (s', None) ->
+  spec_get s' (key_filt c) = Some (SFilt kind o fc tau) /\ sdata s' = sdata s /\ sseq s' = sseq s.
+Proof. exact filter_declared. Qed.
+
+(* cut-off: f_cut when given, otherwise 1/tau - and 1/(1/f) is f *)
+Theorem C11_cutoff : forall s c kind o f t,
+  (spec_get s (key_filt c) = Some (SFilt kind o (VNum f) VNone) -> filter_of s c = Ok (Some (kind, o, f))) /\
+  (spec_get s (key_filt c) = Some (SFilt kind o VNone (VNum t)) -> ~ t == 0 -> filter_of s c = Ok (Some (kind, o, 1 / t))) /\
+  (~ f == 0 -> 1 / (1 / f) == f) /\
+  (spec_get s (key_filt c) = None -> filter_of s c = Ok None).
+Proof. exact filter_cutoff. Qed.
+
+(* a declared channel's waveform is the inverse filter (same kind and order, that cut-off, the SEQUENCE's sample
+   rate) of the plan it is given; an undeclared channel's plan is untouched *)
+Theorem C11_wrap : forall k o f SRq w,
+  filt_wrap (Some (k, o, f)) (VNum SRq) w = Ok (WFilt k o f SRq w) /\ forall SR, filt_wrap None SR w = Ok w.
+Proof. exact filter_wrap. Qed.
+
+(* markers, flags and every other array of the channel do not depend on the waveform plan *)
+Theorem C11_markers_untouched : forall o w w' k,
+  k <> S_ "wfm" ->
+  match pv_of_chout o w, pv_of_chout o w' with
+  | PDict l, PDict l' => alookup (fun a b => match a, b with PStr x, PStr y => str_eqb x y | _, _ => false end) (PStr k) l
+                        = alookup (fun a b => match a, b with PStr x, PStr y => str_eqb x y | _, _ => false end) (PStr k) l'
+  | _, _ => False
+  end.
+Proof. exact markers_untouched. Qed.
+
+(* forge(filters on) differs from forge(filters off) exactly by that wrapping, channel by channel *)
+Theorem C11_forge_element : forall s t e arrs,
+  el_get_arrays e t = Ok arrs ->
+  (forall p, In p arrs -> exists w flt w', chout_plan (snd p) = Ok w /\ filter_of s (fst p) = Ok flt /\ filt_wrap flt (seq_SR s) w = Ok w') ->
+  exists off on,
+    forge_elem_data s false t e = Ok (PDict off) /\ forge_elem_data s true t e = Ok (PDict on) /\
+    map fst on = map fst off /\
+    forall i p, nth_error arrs i = Some p ->
+      exists w flt w', chout_plan (snd p) = Ok w /\ filter_of s (fst p) = Ok flt /\ filt_wrap flt (seq_SR s) w = Ok w' /\
+        nth_error off i = Some (pv_of_chan (fst p), pv_of_chout (snd p) w) /\
+        nth_error on i = Some (pv_of_chan (fst p), pv_of_chout (snd p) w').
+Proof. exact forge_element_filters. Qed.
+
+Print Assumptions C11_validation.
+Print Assumptions C11_declared.
+Print Assumptions C11_cutoff.
+Print Assumptions C11_wrap.
+Print Assumptions C11_markers_untouched.
+Print Assumptions C11_forge_element.
